@@ -187,3 +187,9 @@ package io
 //@ assumed
 //@ pure
 //@ ensures result != nil && fresh(result) && validR(result) && result.Err == nil && result.r.pos == 0 && len(result.r.in) == len(b) && forall(i, 0, len(b), result.r.in[i] == b[i])
+
+// The size helper reads its argument only (what it returns for a given kind of value is stated
+// where it is used).
+//@ func GetVarSize
+//@ assumed
+//@ pure
